@@ -35,7 +35,9 @@ RULE = ('random histories of 3-10 operations over one random tree (depth<=5, fan
         "look like '..', '@@x', 'a%2Fb', leaves without __getitem__); paths mix existing/missing segments, '', '.', "
         "'..', '@@v', percent-encoded and multi-byte text, trailing slashes; vroot absent / '/' / existing / missing / "
         'trailing slash / malformed; entry via PATH_INFO (direct + Router), matchdict traverse/subpath (str and tuple), '
-        'traverse()/find_resource() (str and tuple, absolute and relative). non-trivial = the history has a traversal '
+        'traverse()/find_resource() (str and tuple, absolute and relative), Router without routes (request attributes), '
+        'Router with 7 declared routes (*traverse, {traverse}/*subpath, traverse= predicate, {subpath}: match dictionaries '
+        'from real route matching). thorough adds the exhaustive small-scope sweep (coverage.exhaustive_subruns). non-trivial = the history has a traversal '
         'that consumed at least one segment AND one that stopped early (missing/leaf/@@) or ran under a virtual root; '
         'distinct by full case')
 ASSUMPTIONS = [
@@ -54,7 +56,10 @@ TRUSTED = [
     'Lib/PathNorm.split_path_info (shape-pinned), Lib/Utf8 (CPython strict UTF-8), Lib/Percent (urllib quote / unquote_to_bytes)',
     'webob: Request.blank/environ_from_url/compat.unquote (modelled incl. the int(x,16) leniency), '
     'BaseRequest.path_info decoding -- validated by the correspondence run, not verified',
-    'Router.handle_request copying the dictionary onto the request: validated by the run (not modelled separately)',
+    'Router.handle_request, traversal part (attrs[\'root\'] = root; tdict = traverser(request); attrs.update(tdict)): '
+    'modelled (Model.router_traversal), the statement slice is shape-pinned; the rest of handle_request is not modelled',
+    'route matching (urldispatch + the traverse= pseudo predicate) is an ORACLE for the `route` operations: the match '
+    'dictionary handed to the model is the one the real routes mapper returns (C01 verifies the matcher)',
 ]
 TECHNIQUE = ('Coq proof (induction over the segment list / the walk) on a hand-written Gallina model whose data-like parts '
              'are regenerated from the source + extracted-model differential correspondence over histories')
@@ -62,11 +67,12 @@ LEVEL_TEXT = ('Machine-checked theorems for trees, paths and virtual roots of an
               'ResourceTreeTraverser.__call__ equals the declarative outcome (context = resource at the longest walkable '
               'prefix, view name / subpath from the rest, virtual root = resource at the virtual-root segments, walk never '
               "leaves the virtual root's subtree), the characterisation of the walk is unique, '..' never climbs above the "
-              'root / virtual root, and memoisation of split_path_info (bounded LRU, any cache state, any history of '
-              'traversals) never changes an answer. `traversed` is proved equal to the consumed segments without a virtual '
-              'root or when the path is exhausted, and refuted otherwise (known finding). traverse()/find_resource(), '
-              'traversal_path(_info), quote_path_segment and the percent/UTF-8 plumbing are modelled and validated by '
-              'correspondence only.')
+              'root / virtual root, Router.handle_request writes exactly the dictionary onto the request, and memoisation '
+              '(split_path_info, traversal_path_info, _join_path_tuple LRUs and the (segment, safe) dictionary; any valid '
+              'cache state, any history of traversals, Router requests, traverse()/find_resource() calls, path splits and '
+              'segment quotings) never changes an answer. `traversed` is proved equal to the consumed segments without a virtual '
+              'root or when the path is exhausted, and refuted otherwise (known finding). The percent/UTF-8 plumbing of '
+              'traverse()/find_resource() is modelled here and validated by correspondence (its round trip is proved in C07).')
 LEVEL_NOTE = ('Trusted: Coq kernel; hand-written model (shape-pinned skeleton, regenerated expressions, validated by '
               'correspondence); Python harness; webob request parsing and CPython codecs modelled and validated, not verified. '
               'The history clause is proved for the memo state machines of Proofs/C02 and validated on the real caches by '
